@@ -533,3 +533,11 @@ class SpectralShapeLemmas(Contract):
                 "PyVC.gaussian_half_maximum": "lemma_half_maximum_at_plus_minus_half_fwhm",
             },
         )
+
+
+from contracts.common import FunctionAxiomsBase  # noqa: E402
+
+
+class FunctionAxioms(FunctionAxiomsBase):
+    abstract = False
+    prop = "C07"
